@@ -128,7 +128,8 @@ def write_world(d: Path, w: Dict[str, Any]) -> Path:
     )
     has_fleets = bool(w.get("fleets"))
     rhead = ["request_id", "o_lat", "o_lon", "d_lat", "d_lon", "departure_time", "passengers"]
-    if has_fleets:
+    fleet_col = has_fleets or any(r.get("fleet") for r in w["requests"])
+    if fleet_col:
         rhead.append("fleet_id")
     has_pool = any(r.get("pool") for r in w["requests"])
     if has_pool:
@@ -137,7 +138,7 @@ def write_world(d: Path, w: Dict[str, Any]) -> Path:
     for r in w["requests"]:
         row = [r["id"], f"{r['o'][0]:.7f}", f"{r['o'][1]:.7f}", f"{r['d'][0]:.7f}", f"{r['d'][1]:.7f}",
                r["dep"], r.get("pax", 1)]
-        if has_fleets:
+        if fleet_col:
             row.append(r.get("fleet") or "")
         if has_pool:
             row.append("true" if r.get("pool") else "")     # hive reads bool(<text>): empty = False
